@@ -38,10 +38,43 @@ def make_stub(eng, method):
     return Stub("converter", {method: conv})
 
 
-def drv(mw, vals, inplace):
-    e = M.Entry("article", "ek", [M.Field("title", vals[0]), M.Field("year", 1999),
-                                  M.Field("author", NameParts(first=[vals[1]], last=[vals[2], vals[3]])),
-                                  M.Field("note", vals[4]), M.Field("pages", [10, 25]), M.Field("tags", [vals[7], "q"])], 3, "rawE")
+# entry shapes: field key -> ("s", i) text value vals[i] | ("c", const) non-text constant | ("n", {part: [indices]}) NameParts |
+# ("l", i) list holding vals[i]
+SHAPES = {
+    "main": [("title", ("s", 0)), ("year", ("c", 1999)), ("author", ("n", {"first": [1], "last": [2, 3]})), ("note", ("s", 4)),
+             ("pages", ("c", [10, 25])), ("tags", ("l", 7))],
+    # a NameParts value is the entry's only field: more converted strings than fields
+    "names-only": [("author", ("n", {"first": [0], "von": [1], "last": [2], "jr": [3, 4]}))],
+    # repeated field keys (hand-built entry / entry taken out of a DuplicateFieldKeyBlock)
+    "dup-keys": [("note", ("s", 0)), ("title", ("s", 1)), ("note", ("s", 2)), ("year", ("c", 7)), ("title", ("s", 3))],
+}
+
+
+def shape_indices(shape):
+    out = []
+    for k, (kind, x) in SHAPES[shape]:
+        if kind == "s":
+            out.append(x)
+        elif kind == "n":
+            for part in ("first", "von", "last", "jr"):
+                out.extend(x.get(part, []))
+    return out
+
+
+def drv(mw, vals, inplace, shape="main"):
+    fields = []
+    for k, (kind, x) in SHAPES[shape]:
+        if kind == "s":
+            v = vals[x]
+        elif kind == "c":
+            v = list(x) if isinstance(x, list) else x
+        elif kind == "n":
+            v = NameParts(first=[vals[i] for i in x.get("first", [])], von=[vals[i] for i in x.get("von", [])],
+                          last=[vals[i] for i in x.get("last", [])], jr=[vals[i] for i in x.get("jr", [])])
+        else:
+            v = [vals[x], "q"]
+        fields.append(M.Field(k, v))
+    e = M.Entry("article", "ek", fields, 3, "rawE")
     s = M.String("sk", vals[5], 1, "rawS")
     p = M.Preamble(vals[6], 2, "rawP")
     c = M.ExplicitComment("cc", 4, "rawC")
@@ -52,7 +85,7 @@ def drv(mw, vals, inplace):
     return out.blocks, None, (s, p, e, c, f)
 
 
-def check(res, vals, inplace, E):
+def check(res, vals, inplace, E, shape="main"):
     blocks, _log, orig = res
     s0, p0, e0, c0, f0 = orig
     conds = [len(blocks) == 5]
@@ -83,31 +116,45 @@ def check(res, vals, inplace, E):
     s_err = isinstance(s, M.MiddlewareErrorBlock)
     conds.append(fails[5] if s_err else b_not(fails[5]))
     # entry
-    e_failed = b_any(fails[i] for i in (0, 1, 2, 3, 4))
+    spec = SHAPES[shape]
+    e_failed = b_any(fails[i] for i in shape_indices(shape))
     eb = e.ignore_error_block if isinstance(e, M.MiddlewareErrorBlock) else e
     e_err = isinstance(e, M.MiddlewareErrorBlock)
     conds.append(e_failed if e_err else b_not(e_failed))
     ok = (isinstance(eb, M.Entry) and eb.entry_type == "article" and eb.key == "ek" and eb.raw == "rawE" and eb.start_line == 3
-          and [x.key for x in eb.fields] == ["title", "year", "author", "note", "pages", "tags"])
+          and [x.key for x in eb.fields] == [k for k, _ in spec])
     conds.append(ok)
     if ok:
-        t, y, a, n, pg, tg = [x.value for x in eb.fields]
-        conds.append(converted(t, 0))
-        conds.append(y == 1999 and type(y) is int)
-        conds.append(isinstance(a, NameParts) and len(a.first) == 1 and len(a.last) == 2 and a.von == [] and a.jr == []
-                     and b_all([converted(a.first[0], 1), converted(a.last[0], 2), converted(a.last[1], 3)]))
-        conds.append(converted(n, 4))
-        # list-valued fields are neither str nor NameParts: left alone
-        conds.append(isinstance(pg, list) and pg == [10, 25])
-        conds.append(isinstance(tg, list) and len(tg) == 2 and E(tg, [vals[7], "q"]))
+        for fld, (k, (kind, x)) in zip(eb.fields, spec):
+            v = fld.value
+            if kind == "s":
+                conds.append(converted(v, x))
+            elif kind == "c":
+                # non-text values (ints, lists) are neither str nor NameParts: left alone, type kept
+                conds.append(type(v) is type(x) and v == x)
+            elif kind == "n":
+                good = isinstance(v, NameParts)
+                parts_ok = []
+                if good:
+                    for part in ("first", "von", "last", "jr"):
+                        got = getattr(v, part)
+                        idx = x.get(part, [])
+                        if not (isinstance(got, list) and len(got) == len(idx)):
+                            good = False
+                        else:
+                            parts_ok.extend(converted(g, i) for g, i in zip(got, idx))
+                conds.append(b_all(parts_ok) if good else False)
+            else:
+                conds.append(isinstance(v, list) and len(v) == 2 and E(v, [vals[x], "q"]))
         if e_err:
             conds.append(isinstance(e.error, Exception) and e.raw == "rawE" and e.start_line == 3)
     if not inplace:
-        conds.append(E([x.value for x in e0.fields if is_strlike(x.value)], [vals[0], vals[4]]) and E(s0.value, vals[5]))
+        conds.append(E([x.value for x in e0.fields if is_strlike(x.value)], [vals[x] for k, (kind, x) in spec if kind == "s"])
+                     and E(s0.value, vals[5]))
     return conds, (e_err or s_err)
 
 
-def native_replay(kind, vals, inplace):
+def native_replay(kind, vals, inplace, shape="main"):
     """replay with a concrete converter implementing the same function of its input"""
     import logging
     logging.disable(logging.CRITICAL)
@@ -123,20 +170,20 @@ def native_replay(kind, vals, inplace):
         latex_to_text = _do
     try:
         mw = LatexEncodingMiddleware(encoder=Conv()) if kind == "enc" else LatexDecodingMiddleware(decoder=Conv())
-        res = drv(mw, vals, inplace)
+        res = drv(mw, vals, inplace, shape)
     except Exception as ex:  # noqa
-        return {"input": [kind, vals, inplace], "observed": f"raised {type(ex).__name__}: {ex}", "expected": "error block, no exception"}
-    conds, _ = check(res, vals, inplace, lambda a, b: a == b)
+        return {"input": [kind, vals, inplace, shape], "observed": f"raised {type(ex).__name__}: {ex}", "expected": "error block, no exception"}
+    conds, _ = check(res, vals, inplace, lambda a, b: a == b, shape)
     if all((c is True) or (not isinstance(c, bool) and False) or bool(c) for c in conds):
         return None
     blocks = res[0]
-    return {"input": [kind, vals, inplace],
+    return {"input": [kind, vals, inplace, shape],
             "observed": [(type(b).__name__, repr(getattr(getattr(b, "ignore_error_block", b), "value", None))) for b in blocks[:1]] +
                         [(type(blocks[2]).__name__, [(f.key, repr(f.value)) for f in getattr(blocks[2], "ignore_error_block", blocks[2]).fields])],
             "expected": "only text values converted (converter fails on values starting with 'y'), types kept, failures contained"}
 
 
-def task(kind, inplace):
+def task(kind, inplace, shape="main"):
     eng = Engine()
     rec = Recorder(eng)
     vals = [eng.sym_str(f"v{i}_", 1, "xy") for i in range(8)]
@@ -147,14 +194,14 @@ def task(kind, inplace):
         stub = make_stub(eng, "latex_to_text")
         mw = LatexDecodingMiddleware(decoder=stub)
     E = eng.I.models.eq_simple
-    worlds = eng.run(drv, [mw, vals, inplace])
+    worlds = eng.run(drv, [mw, vals, inplace, shape])
     for W in worlds:
         def rp(m):
-            return native_replay(kind, eng.model_value(m, vals), inplace)
+            return native_replay(kind, eng.model_value(m, vals), inplace, shape)
         if W.exc is not None:
             rec.require(W, True, "no-exception", rp)
             continue
-        conds, failed = check(W.result, vals, inplace, E)
+        conds, failed = check(W.result, vals, inplace, E, shape)
         rec.require(W, b_not(b_all(conds)), "scope-types-containment", rp)
         rec.witness("converter-failed" if failed else "all-converted", W)
     if worlds:
@@ -189,15 +236,15 @@ def task_ctor():
 
 def main():
     chk = Check("C18", __doc__)
-    chk.bounds = {"library": "String, Preamble, Entry(str, int, NameParts(first 1 word, last 2 words), str, list of ints, list of str), ExplicitComment, ParsingFailedBlock; every text one symbolic character",
+    chk.bounds = {"library": "String, Preamble, Entry, ExplicitComment, ParsingFailedBlock; every text one symbolic character; three entry shapes: main = (str, int, NameParts(first 1 word, last 2 words), str, list of ints, list of str); names-only = a single NameParts field with 5 strings over all four parts; dup-keys = note/title/note/year(int)/title with repeated field keys",
                   "converter": "a function of its input: raises on values starting with 'y', else returns '<'+input+'>' (values are symbolic over {x,y}, so all 2^6 failure patterns and all equal-value patterns occur)",
                   "options": "encoder / decoder middleware x allow_inplace_modification in {True, False}; custom converter vs. option conflicts in the constructors"}
     chk.assumptions = ["the pylatexenc conversion itself is a stub: what it returns is arbitrary, so the round-trip clause decode(encode(t)) == t is NOT claimed (not encodable within reach: third-party, table/regex driven)",
                        "default-constructed middlewares (which build pylatexenc objects) are not interpreted; only the custom-converter path of the constructors is"]
     chk.stubs = ["pylatexenc UnicodeToLatexEncoder.unicode_to_latex / LatexNodes2Text.latex_to_text -> nondeterministic stub"]
     chk.expected_vacuity = ["converter-failed", "all-converted"]
-    for kind, inplace in itertools.product(("enc", "dec"), (True, False)):
-        chk.add_task(f"{kind}-inplace{int(inplace)}", task, kind=kind, inplace=inplace)
+    for kind, inplace, shape in itertools.product(("enc", "dec"), (True, False), sorted(SHAPES)):
+        chk.add_task(f"{kind}-inplace{int(inplace)}-{shape}", task, kind=kind, inplace=inplace, shape=shape)
     chk.add_task("constructors", task_ctor)
     chk.run()
 
